@@ -37,21 +37,21 @@ META = {
     ),
     "C13": dict(
         category="exploration",
-        text="W simulated ranks (torch.distributed rank/world-size queries answered by the simulator) each own a real sampler; a seeded interleaving of per-rank STEP / OPEN+DRAIN (iterators held open across other operations, or abandoned) / RESTART / JUMP / PEEK operations and global-RNG perturbations is executed, and the recorded (rank, epoch) -> index-list table is judged: same list however reached, len() = number yielded, per-epoch lists pairwise disjoint and covering (or equal counts when dropping), raise iff indivisible under the strict setting, full epoch under ignore, order independent of rank and world size.",
+        text="W simulated ranks (torch.distributed rank/world-size queries answered by the simulator) each own a real sampler; a seeded interleaving of per-rank STEP / STEPX (a consumer taking exactly len() items) / OPEN+DRAIN (iterators held open across other operations, or abandoned) / RESTART / CLONE (copy, deepcopy, pickle) / JUMP / PEEK / LEN operations and global-RNG perturbations is executed, and the recorded (rank, epoch) -> index-list table is judged: same list however reached, len() = number yielded, per-epoch lists pairwise disjoint and covering (or equal counts when dropping), raise iff indivisible under the strict setting, full epoch under ignore, order independent of rank and world size.",
         design="DESIGN.md section 4 (C13), 3.5",
         note="Trusted: SimDist answers is_initialized/get_rank/get_world_size (no process group, no collectives); all ranks share one interpreter and its global RNGs (which is the hazard under test); ranks of a real job are assumed to seed torch identically before building samplers.",
         technique="deterministic simulation: simulated ranks, seeded interleaving of sampler operations with rank restarts and RNG perturbation, history oracle",
     ),
     "C14": dict(
         category="exploration",
-        text="The C13 job one level up: each simulated rank owns a real SpectDataLoader / LangDataLoader / ContextWindowDataLoader over a generated data directory in the simulated file system (or a bare BucketBatchSampler with arbitrary maps); epochs, abandoned epochs (k batches, then the iterator is dropped), rank restarts, epoch jumps and RNG perturbations are interleaved by the seed; len() is also asked mid-epoch. After every epoch: len() vs batches yielded, every batch in one bucket / in sampler order / of the bucket's size with short batches only at the tail, exactly-once delivery (or documented drops), the bucket map is a partition into length classes with documented sizes, lossless collation against an independent float64 reference pipeline (mvn, deltas, context windows, sos/eos), padding values, ids on rows; over the history: identical batches for identical (seed, epoch).",
+        text="The C13 job one level up: each simulated rank owns a real SpectDataLoader / LangDataLoader / ContextWindowDataLoader over a generated data directory in the simulated file system (or a bare BucketBatchSampler with arbitrary maps); epochs, abandoned epochs (k batches, then the iterator is dropped), rank restarts, epoch jumps and RNG perturbations are interleaved by the seed; len() is also asked mid-epoch, and a quarter of the scenarios consume epochs by taking exactly len(loader) batches. After every epoch: len() vs batches yielded, every batch in one bucket / in sampler order / of the bucket's size with short batches only at the tail, exactly-once delivery (or documented drops), the bucket map is a partition into length classes with documented sizes, lossless collation against an independent float64 reference pipeline (mvn, deltas, context windows, sos/eos), padding values, ids on rows; over the history: identical batches for identical (seed, epoch).",
         design="DESIGN.md section 4 (C14)",
         note="Trusted: SimFS/SimDist stubs; num_workers=0; rows are mapped to utterances by content when ids are suppressed; the per-rank sampler order is taken from the sampler's public API (its correctness is C13); reference transforms in props/corpus.py.",
         technique="deterministic simulation: simulated ranks and file system, seeded epoch/restart/jump histories, per-epoch invariants + reproducibility history oracle",
     ),
     "C12": dict(
         category="exploration",
-        text="Seeded operation-and-corruption histories on one data directory in the simulated file system (CORRUPT with 20 stored-data fault kinds, REPAIR, REMOVE, STRAY files, VALIDATE, VALIDATE(fix=k), INFO none/strict/fix through the command, READ with sos/eos and write_hyp round trip), with directory listings permuted by the seed, judged after every step against an in-memory reference model: strict validation raises iff the documented conditions fail; fix=k succeeds iff only documented repairs are needed, writes exactly those repairs, is sticky and idempotent, and on failure leaves each file old or documented-repaired; the info report equals the recount; sos/eos surround every transcript including empty ones and write_hyp strips them.",
+        text="Seeded operation-and-corruption histories on one data directory in the simulated file system (CORRUPT with 24 stored-data fault kinds incl. changed frame counts, REPAIR, REMOVE, STRAY files, VALIDATE, VALIDATE(fix=k), INFO none/strict/fix through the command, READ with sos/eos and write_hyp round trip), with directory listings permuted by the seed and, in half of the scenarios, one long-lived data set object over the whole history, judged after every step against an in-memory reference model: strict validation raises iff the documented conditions fail; fix=k succeeds iff only documented repairs are needed, writes exactly those repairs, is sticky and idempotent, and on failure leaves each file old or documented-repaired; the info report equals the recount; sos/eos surround every transcript including empty ones and write_hyp strips them.",
         design="DESIGN.md section 4 (C12)",
         note="Trusted: the reference model in props/c12.py (judge / recount, transcribed from the validate_spect_data_set and command docstrings); SimFS; no CUDA tensors; int8/int16 not injected; rcount of classes with empty known segments not judged (documentation ambiguous).",
         technique="deterministic simulation: stored-data fault injection and operation histories on a simulated directory against an executable reference model",
@@ -79,7 +79,7 @@ META = {
     ),
     "C11": dict(
         category="exploration",
-        text="Decides the schedule, stream and (sampled) round-trip clauses: multi-process read_trn runs on SimPool (ordered imap) under tape-chosen completion orders, chunk sizes, queue depths and worker counts and must return the processes=0 list; every writer is driven through a path, an open file and a StringIO with option vectors that differ from the defaults and the bytes are compared, every reader through a path and an open file; write-then-read is judged for trn (nested alternates), ctm (any wfn/channel mapping, mandated order), TextGrid (interval/point tiers, precision 0..6, gap filling) and token tensors (times within one frame shift).",
+        text="Decides the schedule, stream and (sampled) round-trip clauses: multi-process read_trn runs on SimPool (ordered imap) under tape-chosen completion orders, chunk sizes, queue depths and worker counts and must return the processes=0 list; every writer is driven through a path, an open file and a StringIO with option vectors that differ from the defaults and the bytes are compared, also into a file with a history (earlier content, written to twice, append mode); every reader through a path and an open file, after a warm-up round on the same paths and a read of the path's previous content (what the library remembers between calls is then stale); write-then-read is judged for trn (nested alternates), ctm (any wfn/channel mapping, mandated order), TextGrid (interval/point tiers, precision 0..6, gap filling) and token tensors (times within one frame shift).",
         design="DESIGN.md section 4 (C11)",
         note="The first sentence ('for every collection of transcripts') is an input-space statement that the workload only samples. Known finding C11-D3b (explicit point_tier not forwarded through a path; a unit test pins the resulting tier type). Trusted: SimPool; generator discipline (delimiter-free tokens, times on the print grid).",
         technique="deterministic simulation: tape-scheduled SimPool for multi-process parsing, path/file/buffer stream seam differential, write-read round trip",
